@@ -68,6 +68,13 @@ Theorem ids_unique_partial : forall xhtml m q, UniqueUuidsUp m -> export xhtml m
 Proof. exact objs_nodup. Qed.
 Print Assumptions ids_unique_partial.
 
+(* 4'. the data types generated from attribute definitions are duplicate-free (the visited_types set), and
+       so are the five standard data types *)
+Theorem datatype_ids_unique : forall xhtml m q, export xhtml m = Ok q ->
+  exists dts, q_datatypes q = std_datatypes ++ dts /\ NoDup (map dd_id dts) /\ has_dup (map dd_id std_datatypes) = false.
+Proof. exact datatypes_nodup. Qed.
+Print Assumptions datatype_ids_unique.
+
 (* 5. compressed export: the archive holds one member, ARCHIVE_MEMBER, with the bytes of the plain export
       (zipfile as any pair with unzip (zip ms) = ms); compression happens only for compress=None and a
       path ending in ".reqifz". *)
@@ -80,6 +87,14 @@ Theorem compress_decision : forall c p name,
   decide_compress c p name = true <-> c = None /\ p = true /\ ends_with name COMPRESS_SUFFIX = true.
 Proof. exact decide_compress_spec. Qed.
 Print Assumptions compress_decision.
+
+(* 6. well-formed output exists — PARTIAL (guarded).  The export produces a document whenever every
+      definition in use is complete for its use (an enumeration attribute has an enumeration definition
+      with a data type) and lxml can parse every XHTML-typed field.  Without the guards the statement
+      is false: export_total_refuted. *)
+Theorem export_total_partial : forall xhtml m, DefsComplete m -> FieldsParse xhtml m -> exists q, export xhtml m = Ok q.
+Proof. exact export_total_lemma. Qed.
+Print Assumptions export_total_partial.
 
 (* ---------- witnesses ---------- *)
 Definition xh : str -> result str := fun s => Ok s.
@@ -94,9 +109,10 @@ Definition m_ok : module :=
    attribute, and attributes without definition; and export succeeds on it *)
 Example hyps_satisfiable :
   UniqueReqs m_ok /\ UniqueUuidsUp m_ok /\ DefsConsistent m_ok /\ DatatypesConsistent m_ok /\ EnumDeclared m_ok
+  /\ DefsComplete m_ok /\ FieldsParse xh m_ok
   /\ exists q, export xh m_ok = Ok q /\ length (q_objs q) = 2%nat.
 Proof.
-  repeat split.
+  repeat split; try (unfold xh; eauto; fail).
   - unfold UniqueReqs. simpl. repeat constructor; simpl; intuition discriminate.
   - unfold UniqueUuidsUp. simpl. repeat constructor; simpl; intuition discriminate.
   - intros k k' Hk Hk' E. simpl in Hk, Hk'.
@@ -109,6 +125,10 @@ Proof.
     repeat match goal with H : _ \/ _ |- _ => destruct H end; subst; try contradiction; simpl in Ha;
       repeat match goal with H : _ \/ _ |- _ => destruct H end; subst; try contradiction; try discriminate.
     inversion Hv; subst. exists e_def, e_dt. repeat split. intros x [<-|[]]. simpl. auto.
+  - simpl in H. repeat match goal with H : _ \/ _ |- _ => destruct H end; subst; try contradiction;
+      eexists; vm_compute; reflexivity.
+  - simpl in H. repeat match goal with H : _ \/ _ |- _ => destruct H end; subst; try contradiction;
+      eexists; vm_compute; reflexivity.
   - eexists. split. vm_compute. reflexivity. reflexivity.
 Qed.
 
